@@ -98,6 +98,7 @@ type c16World struct {
 	disturbed uint64 // seq of the last kill-type op
 	connSeq   uint64 // seq at which the current connection was established
 	lastCall  *c16Call
+	callNo    int
 	held      []net.Conn
 	opts      wServerOpts
 	faulty    bool // a reconnect-failure fault is pending or the network is lossy
@@ -113,6 +114,7 @@ type c16Call struct {
 	err           error
 	overlapped    bool
 	closedAtStart bool
+	no            int // invocation number: sequencing rules need the immediately preceding call
 }
 
 func (cw *c16World) allEndpoints() (open, total int, openList []string) {
@@ -328,7 +330,8 @@ func (cw *c16World) checkSockets(when string) {
 // call performs one TCP()/UDP() through the reconnectable client and judges it.
 func (cw *c16World) call(kind string, idx int) *c16Call {
 	x := cw.x
-	c := &c16Call{kind: kind, inv: x.Seq(), cfgBefore: cw.cfgCalls, connBefore: len(cw.connected), closedAtStart: cw.closed}
+	cw.callNo++
+	c := &c16Call{kind: kind, no: cw.callNo, inv: x.Seq(), cfgBefore: cw.cfgCalls, connBefore: len(cw.connected), closedAtStart: cw.closed}
 	if cw.inflight > 0 {
 		c.overlapped = true
 		for _, o := range cw.active {
@@ -355,6 +358,7 @@ func (cw *c16World) call(kind string, idx int) *c16Call {
 	}
 	c.ret = x.Seq()
 	c.cfgAfter, c.connAfter = cw.cfgCalls, len(cw.connected)
+	cw.lastCall = c
 	x.Ev("%s#%d -> err=%v (configFunc calls %d->%d, connections %d->%d)", kind, idx, c.err, c.cfgBefore, c.cfgAfter, c.connBefore, c.connAfter)
 	var closedErr coreErrs.ClosedError
 	isClosed := errors.As(c.err, &closedErr)
@@ -403,7 +407,7 @@ func (cw *c16World) call(kind string, idx int) *c16Call {
 			x.Violate("reconnect-on-recoverable-error", "stream-limit error although configFunc was evaluated during the call")
 		}
 	}
-	if prev != nil && !prev.overlapped && prev.ret < c.inv {
+	if prev != nil && !prev.overlapped && prev.ret < c.inv && prev.no == c.no-1 {
 		var pClosed coreErrs.ClosedError
 		prevClosed := errors.As(prev.err, &pClosed)
 		var psl *quic.StreamLimitReachedError
